@@ -452,11 +452,12 @@ func init() {
 	externals["internal/bytealg.Cutover"] = func(fr *frame, args []value) value { return 1 << 30 }
 	externals["internal/cpu.Initialize"] = func(fr *frame, args []value) value { return nil }
 
+	// the original interpreter's convenience externals are not trusted (strings.Replace swaps its
+	// arguments): the real library source is interpreted instead
 	for _, n := range []string{"bytes.IndexByte", "strings.IndexByte", "strings.Index", "strings.Count", "strings.EqualFold",
-		"strings.Replace", "strings.ToLower", "strconv.Atoi", "strconv.Itoa", "strconv.FormatFloat", "unicode/utf8.DecodeRuneInString",
+		"strings.Replace", "strings.ToLower", "strconv.Atoi", "strconv.Itoa", "unicode/utf8.DecodeRuneInString",
 		"sort.Float64s", "sort.Ints", "sort.Strings", "math.Min"} {
-		if externals[n] != nil {
-			concreteOnly[n] = true
-		}
+		delete(externals, n)
 	}
+	concreteOnly["strconv.FormatFloat"] = true
 }
